@@ -405,6 +405,16 @@ def contents_resize(ctx, rule):
             sw = [c.bb for c in q.path_conditions(b, rz[0][0])][-1:] or [rz[0][0]]
             ok = ok and b.dominates(sw[0], ix[0])
             ctx.check(ok, rule, fn, "resize-before-write", "the length comparison and (when shorter) the resize happen before the indexed write on every path", detail=str(guards))
+            # the entry is overwritten on every call - also with None, which clears it
+            dest = [t["dest"]["l"] for bi, t in b.calls() if bi == ix[0]][0]
+            aliases = {dest}
+            for l, ds in b.defs.items():
+                if len(ds) == 1 and ds[0][2] == "assign" and ds[0][3]["rv"]["k"] == "use" and ds[0][3]["rv"]["op"]["k"] in ("move", "copy") and ds[0][3]["rv"]["op"]["place"]["l"] == dest and not ds[0][3]["rv"]["op"]["place"]["p"]:
+                    aliases.add(l)
+            wr = [(bi, q.shape(b.expr_of_rvalue(s["rv"]))) for bi, si, s, it in b.locations() if not it and s["k"] == "assign" and s["place"]["p"] and s["place"]["p"][0]["k"] == "deref" and s["place"]["l"] in aliases]
+            rets = b.return_blocks()
+            ok = len(wr) == 1 and all(b.dominates(ix[0], r) and b.dominates(wr[0][0], r) for r in rets) and (wr[0][1].startswith("Option::map(arg3,") or wr[0][1].startswith("Option::map_or(arg3,Option::None") or wr[0][1].startswith("Option::and_then(arg3,"))
+            ctx.check(ok, rule, fn, "write-unconditional", "the entry is overwritten with the converted argument on every call (None clears it)", detail=str(wr))
 
 
 # ---------------------------------------------------------------------------------------------
